@@ -35,6 +35,7 @@ type TierSpec struct {
 	QueryMs     int            `json:"query_ms"`
 	FreshMs     int            `json:"fresh_ms"`
 	AllocBound  int64          `json:"alloc_bound"`
+	NowWindowS  int64          `json:"now_window_s"`
 	Entries     []string       `json:"entries"` // optional subset/superset of entries for this tier
 }
 
@@ -175,6 +176,15 @@ func run() int {
 	var entries []EntrySpec
 	for pi, ps := range spec.Packages {
 		pkgDirAbs := filepath.Join(*flagRepo, ps.PkgDir)
+		if filepath.IsAbs(ps.PkgDir) {
+			pkgDirAbs = ps.PkgDir // a dependency in the module cache (harness-only constructor file)
+		} else if strings.HasPrefix(ps.PkgDir, "$GOMODCACHE/") {
+			mc := os.Getenv("GOMODCACHE")
+			if mc == "" {
+				mc = "/root/go/pkg/mod"
+			}
+			pkgDirAbs = filepath.Join(mc, strings.TrimPrefix(ps.PkgDir, "$GOMODCACHE/"))
+		}
 		for fi, f := range ps.Files {
 			repl[filepath.Join(pkgDirAbs, fmt.Sprintf("zz_verif_%s_%d_%s", strings.ToLower(spec.Property), fi, filepath.Base(f)))] = filepath.Join(hdir, f)
 		}
@@ -307,6 +317,7 @@ func run() int {
 		sh.Deadline = t0.Add(time.Duration(tier.TimeBudgetS) * time.Second * time.Duration(len(entries)))
 	}
 	sh.AllocBound = tier.AllocBound
+	sh.NowWindow = tier.NowWindowS
 	sh.Property = spec.Property
 	sh.FreshMs = tier.FreshMs
 	if sh.FreshMs == 0 {
